@@ -42,7 +42,8 @@ type StructDataProvider struct {
 
 func (s *StructDataProvider) Get(key string) any {
 	field := s.value.FieldByName(key)
-	if !field.IsValid() {
+	if !field.IsValid() || !field.CanInterface() {
+		// no such field, or an unexported one: absent
 		return nil
 	}
 	return field.Interface()
@@ -55,7 +56,7 @@ func (s *StructDataProvider) GetByField(field reflect.StructField, fallback stri
 
 func (s *StructDataProvider) GetNestedProvider(key string) DataProvider {
 	field := s.value.FieldByName(key)
-	if !field.IsValid() {
+	if !field.IsValid() || !field.CanInterface() {
 		return nil
 	}
 	dataProvider, _ := TryNewAnyDataProvider(field.Interface())
